@@ -466,6 +466,7 @@ def main():
     out["pc_cases"] = []
     members = [(0, "floor", lambda m, x, c: m.floor(x)), (1, "ceil", lambda m, x, c: m.ceil(x)), (2, "trunc", lambda m, x, c: m.trunc(x)),
                (2, "fix", lambda m, x, c: m.fix(x)), (3, "sign", lambda m, x, c: m.sign(x)),
+               (10, "rint", lambda m, x, c: m.rint(x)), (10, "round", lambda m, x, c: m.round(x)), (10, "around", lambda m, x, c: m.around(x)), (10, "x.round()", lambda m, x, c: x.round() if hasattr(x, "round") else m.round(x)),
                (4, "greater", lambda m, x, c: m.greater(x, c)), (4, "x > c", lambda m, x, c: x > c), (6, "c > x", lambda m, x, c: m.greater(c, x)),
                (5, "greater_equal", lambda m, x, c: m.greater_equal(x, c)), (5, "x >= c", lambda m, x, c: x >= c),
                (6, "less", lambda m, x, c: m.less(x, c)), (6, "x < c", lambda m, x, c: x < c), (4, "c < x", lambda m, x, c: m.less(c, x)),
